@@ -352,3 +352,34 @@ func VerifC01Generic() {
 	limit := vrange("limit", 2, 5)
 	c01Check(g, limit, false)
 }
+
+// one ChainBranch value appended to two chains (and the chains run independently)
+func VerifC01ChainBranchReuse() {
+	ctx := context.Background()
+	vcfg("fifo", 1)
+	pick := vrange("pick", 0, 1)
+	cb := NewChainBranch(func(ctx context.Context, in map[string]any) (string, error) { return []string{"x", "y"}[pick], nil })
+	cb.AddLambda("x", vNode("x", nil))
+	cb.AddLambda("y", vNode("y", nil))
+	mk := func(tag string) Runnable[map[string]any, map[string]any] {
+		ch := NewChain[map[string]any, map[string]any]()
+		ch.AppendLambda(vNode(tag, nil))
+		ch.AppendBranch(cb)
+		r, err := ch.Compile(ctx)
+		vassert(err == nil, "chain "+tag+" with a shared branch compiles")
+		return r
+	}
+	r1 := mk("a")
+	r2 := mk("b")
+	x := vsymInt("x")
+	for _, rt := range []struct {
+		r   Runnable[map[string]any, map[string]any]
+		tag string
+	}{{r1, "a"}, {r2, "b"}} {
+		out, err := rt.r.Invoke(ctx, map[string]any{"in": x})
+		vassert(err == nil, "chain "+rt.tag+" runs")
+		k := []string{"x", "y"}[pick]
+		want := map[string]any{k: vsymUF("f_"+k, vFold(map[string]any{rt.tag: vsymUF("f_"+rt.tag, vFold(map[string]any{"in": x}))}))}
+		vassert(vMapEq(out, want), "a chain is the composition of its own stages also when a branch value is shared with another chain")
+	}
+}
